@@ -27,7 +27,10 @@ RULE = ("one run = a history of 8-40 operations (proposal by a new/existing acto
         "non-trivial = at least one replacement or expiry or bounds change happened; distinct = abstract digest of the "
         "operation sequence (kind, actor)"
         " Values also carry binary fractions of a watt; the actor variant runs the manager for battery, EV-charger"
-        " or PV pools and in 40% of runs proposes through a BatteryPool front-end.")
+        " or PV pools and in 40% of runs proposes through a BatteryPool front-end."
+        " The object level tracks the last target calculate_target_power() handed out (None = unchanged must leave"
+        " the right value in force) and issues get_status() between a change and the recalculation; the actor level"
+        " also re-publishes unchanged bounds.")
 QUICK_RUNS = 8000
 THOROUGH_RUNS = 500_000
 EXPECT_PROBES = ["replacement", "expiry", "bounds_change", "same_priority_actors", "exclusion_bigger_than_inclusion",
